@@ -50,7 +50,7 @@ def hidden_state(check):
                             continue
                         found.setdefault(a, set()).add(("linear model" if lin else "nonlinear model", where))
         except AnalysisError as e:
-            check.undecided("EFF-HIDDEN-STATE", q, "abstract interpretation failed: %s" % e, loc)
+            check.failed("EFF-HIDDEN-STATE", q, e, loc, "abstract interpretation failed")
             continue
         if book_reads:
             a, where = sorted(book_reads.items())[0]
